@@ -165,7 +165,9 @@ func GetModule(name string, sources ...string) (*Entry, []error) {
 		}
 	}
 	if len(errs) > 0 {
-		return nil, errs
+		// In the order every other list of errors comes in, not in the
+		// order the sources were given.
+		return nil, errorSort(errs)
 	}
 	return ms.GetModule(name)
 }
